@@ -21,6 +21,9 @@ fn parse_both(int: &[u8], frac: &[u8], exp: i32, h: &mut Hasher64, rep: &mut Rep
             Ok(b) => {
                 h.u64(b);
                 rep.count("returned");
+                if PRINT.load(std::sync::atomic::Ordering::Relaxed) {
+                    eprintln!("RESULT {} {}:{}:{} -> {:x}", if f64_ { "f64" } else { "f32" }, util::hex(int), util::hex(frac), exp, b);
+                }
             }
             Err(msg) => {
                 h.u64(0xbad);
@@ -41,6 +44,8 @@ fn parse_both(int: &[u8], frac: &[u8], exp: i32, h: &mut Hasher64, rep: &mut Rep
         }
     }
 }
+
+static PRINT: std::sync::atomic::AtomicBool = std::sync::atomic::AtomicBool::new(false);
 
 fn garbage(rng: &Rng, n: usize, style: u64) -> Vec<u8> {
     match style {
@@ -128,6 +133,9 @@ fn main() {
     let rng = Rng::new(seed).fork(0xC08).fork(shard.0 + 1);
     let max = args.u64("max-evals", u64::MAX);
     let announce = args.has("announce");
+    // valid inputs only (for the cross-platform differential: what garbage does may legitimately depend on the word size)
+    let valid_only = args.has("valid-only");
+    PRINT.store(args.has("print-results"), std::sync::atomic::Ordering::Relaxed);
     let mut h = Hasher64::new();
     if let Some(k) = args.get("case") {
         let p: Vec<&str> = k.split(':').collect();
@@ -141,7 +149,19 @@ fn main() {
             break;
         }
         i += 1;
-        let (int, frac, exp, tag) = if i % 16 == 9 || i % 16 == 13 {
+        let (int, frac, exp, tag) = if valid_only && i % 2 == 0 {
+            let (a, b, e) = targeted(&rng, i / 2);
+            (a, b, e, "targeted_valid")
+        } else if valid_only {
+            // near-halfway long inputs: the big-integer path (32-bit limbs on a 32-bit target)
+            let fmt = if rng.chance(2, 3) { mlverif::oracle::F64 } else { mlverif::oracle::F32 };
+            let mut r2 = rng.fork(rng.next());
+            let mut c = if rng.chance(1, 5) { mlverif::gen::g1x(&mut r2, fmt) } else { mlverif::gen::g1(&mut r2, fmt) };
+            if c.ndigits() > 1200 {
+                c = mlverif::gen::Case::new(b"9007199254740993", b"00000000000000000000000000001", 0, "x");
+            }
+            (c.int, c.frac, c.exp, "near_halfway_valid")
+        } else if i % 16 == 9 || i % 16 == 13 {
             // an input a hair from a rounding boundary (so that the moderate stage declines and the big-integer
             // path runs), valid (13) or with 1..3 bytes corrupted (9): garbage that reaches deep code
             let fmt = if rng.chance(2, 3) { mlverif::oracle::F64 } else { mlverif::oracle::F32 };
